@@ -100,6 +100,21 @@ func content(s *jsonapi.Schema) string {
 	return strings.Join(parts, "\n")
 }
 
+// contentExact is content plus the nil-ness of every map: "exactly as it was"
+// for edits that must change nothing (Type.Equal / reflect.DeepEqual see the
+// difference between a nil and an empty map).
+func contentExact(s *jsonapi.Schema) string {
+	var sb strings.Builder
+
+	sb.WriteString(content(s))
+
+	for i := range s.Types {
+		fmt.Fprintf(&sb, " [%d attrs-nil=%v rels-nil=%v]", i, s.Types[i].Attrs == nil, s.Types[i].Rels == nil)
+	}
+
+	return sb.String()
+}
+
 func (m *mSchema) content() string {
 	parts := make([]string, len(m.Types))
 	for i, t := range m.Types {
